@@ -21,6 +21,8 @@ Static clauses decided (necessary conditions of C35):
  ADOPT    a db_session that adopts a leftover (interactive-mode) cache merges its own immediate flag into the cache on every path.
  SERIAL   a serializable db_session is immediate (DBSessionContextManager.__init__) and PostgreSQL/MySQL/Cockroach set the
           isolation level in set_transaction_mode.
+ LOCKSET+ every normal path through a SessionCache method that commits empties cache.for_update; additions decided by scenario
+         (lock requested / not, creation / not).
 """
 NOT_DECIDED = "blocking behaviour of the engines; interleavings"
 
